@@ -70,6 +70,37 @@ def impl_msg(case):
                 fail = f'changing the dictionary returned by dict() changed the message ({vars(m)}) or a message built from it ({built!r})'
             elif m.dict() != mido.Message(t, time=time, **d).dict():
                 fail = 'dict() of equal messages differs after a returned dictionary was changed'
+        if fail is None and (t == 'sysex' or (len(d) + len(t)) % 3 == 0):
+            # the same round trips for messages that came into being otherwise: standard-library copies, and a message whose
+            # attributes were ASSIGNED (booleans are valid integers there as well)
+            from .. import persist
+            variants = [(how, c) for how, c in persist.clones(m)]
+            a = mido.Message(t, time=time, **d)
+            for n in list(vars(a)):
+                if n not in ('type', 'data') and vars(a)[n] in (0, 1) and type(vars(a)[n]) is int:
+                    setattr(a, n, bool(vars(a)[n]))
+                    break
+            else:
+                a.time = True
+            variants.append(('assigning a boolean to an attribute', a))
+            variants.append(('assigning a boolean, then copy()', a.copy()))
+            for how, c in variants:
+                if isinstance(c, Exception):
+                    fail = f'{how} of {m!r} raised {type(c).__name__}: {c}'
+                    break
+                try:
+                    if mido.Message.from_str(str(c)) != c:
+                        fail = f'from_str(str(x)) differs from x for the message obtained by {how}: {c!r} (text {str(c)!r}, attributes {vars(c)})'
+                    elif mido.Message.from_dict(c.dict()) != c:
+                        fail = f'from_dict(x.dict()) differs from x for the message obtained by {how}: {c!r} (attributes {vars(c)})'
+                    elif eval(repr(c)) != c:
+                        fail = f'eval(repr(x)) differs from x for the message obtained by {how}: {c!r} (attributes {vars(c)})'
+                    elif 'assign' in how and list(mido.parse_string_stream([str(c)]))[0][0] != c:
+                        fail = f'parse_string_stream does not give back the message obtained by {how}: {str(c)!r}'
+                except Exception as e:
+                    fail = f'a round trip of the message obtained by {how} ({c!r}, text {str(c)!r}) raised {type(e).__name__}: {e}'
+                if fail:
+                    break
         return 'ok ' + cps(s), fail
     except Exception as e:
         return 'err ' + exc_name(e), f'round trip of Message({t!r}, {d!r}, time={time!r}) raised {type(e).__name__}: {e}'
